@@ -12,8 +12,10 @@ import XrsVerif.Gen.MetricFacts
     the *generated* facts of Gen/MetricFacts.lean.
 
   Domain: ASCII strings (`\d`, `str.lower`, `float` are modelled for ASCII only; Python's `\d` and
-  `float` also accept other Unicode decimal digits).  Values are exact rationals: the two float
-  roundings of the real code (`float(number)`, `d * UNITS[unit]`) are not modelled.
+  `float` also accept other Unicode decimal digits).  Values are rationals; every float operation of
+  the real code (`float(number)`, the float constants of `UNITS`, `d * UNITS[unit]`) goes through the
+  parameter `rnd : Rat → Rat`: the driver runs the model with IEEE binary64 rounding (`roundF64`), the
+  theorems hold for every `rnd` (exact arithmetic is `rnd = id`); overflow to inf is not represented.
 -/
 namespace XrsVerif.DistStr
 
@@ -104,8 +106,9 @@ def specialFloat (t : List Char) : Option PyFloat :=
   else if b = ['n', 'a', 'n'] then some .nan
   else none
 
-def pyFloatTok : Tok → Option PyFloat
-  | .num m => some (.fin (decVal m))
+/-- `float(piece)`; `rnd` rounds the decimal value to a float -/
+def pyFloatTok (rnd : Rat → Rat) : Tok → Option PyFloat
+  | .num m => some (.fin (rnd (decVal m)))
   | .txt t => specialFloat t
 
 /-- IEEE comparison `v op b` of a Python float with a finite bound -/
@@ -119,10 +122,11 @@ def cmpPF (op : CmpOp) (v : PyFloat) (b : Rat) : Bool :=
     | .lt => decide (q < b) | .le => decide (q ≤ b) | .eq => decide (q = b)
     | .ne => decide (q ≠ b) | .gt => decide (b < q) | .ge => decide (b ≤ q)
 
-def mulFactor (v : PyFloat) (f : Rat) : PyFloat :=
+/-- `d * UNITS[unit]`: the table constant `f` is itself a float (`rnd f`), the product is rounded -/
+def mulFactor (rnd : Rat → Rat) (v : PyFloat) (f : Rat) : PyFloat :=
   match v with
   | .nan => .nan
-  | .fin q => .fin (q * f)
+  | .fin q => .fin (rnd (q * rnd f))
   | .pinf => if 0 < f then .pinf else if f < 0 then .ninf else .nan
   | .ninf => if 0 < f then .ninf else if f < 0 then .pinf else .nan
 
@@ -142,27 +146,28 @@ def rejected (v : PyFloat) : Bool :=
   cmpPF Gen.distance_reject.1 v (ratOf Gen.distance_reject.2.1 Gen.distance_reject.2.2)
 
 /-- `_get_distance(s)` -/
-def getDistance (s : List Char) : Dist :=
+def getDistance (rnd : Rat → Rat) (s : List Char) : Dist :=
   let sp := splits s
   if !(Gen.distance_allowed_lens.contains sp.length) then .err "invalid" else
   let unit := if sp.length = Gen.distance_unit_guard then (sp.getD Gen.distance_unit_index (.txt [])).chars
               else Gen.default_unit.toList
-  match pyFloatTok (sp.getD Gen.distance_number_index (.txt [])) with
+  match pyFloatTok rnd (sp.getD Gen.distance_number_index (.txt [])) with
   | none => .err "numeric"
   | some v =>
     if rejected v then .err "positive" else
     match lookupUnit (normUnit unit) with
     | none => .err "unit"
-    | some f => .val (mulFactor v f)
+    | some f => .val (mulFactor rnd v f)
 
 /-! ### `calc_cellsize`: resolution (rx, ry) and the optional `unit` attribute -/
 
 def absIf (b : Bool) (q : Rat) : Rat := if b then (if q < 0 then -q else q) else q
 
 /-- `(to_meters(rx, unit), abs(to_meters(ry, unit)))`; `none` = KeyError (the attribute is used as is) -/
-def calcCellsize (unit : Option (List Char)) (rx ry : Rat) : Option (Rat × Rat) :=
+def calcCellsize (rnd : Rat → Rat) (unit : Option (List Char)) (rx ry : Rat) : Option (Rat × Rat) :=
   match lookupUnit (unit.getD Gen.default_unit.toList) with
   | none => none
-  | some f => some (absIf (Gen.cellsize_abs.getD 0 false) (rx * f), absIf (Gen.cellsize_abs.getD 1 false) (ry * f))
+  | some f => some (absIf (Gen.cellsize_abs.getD 0 false) (rnd (rx * rnd f)),
+                    absIf (Gen.cellsize_abs.getD 1 false) (rnd (ry * rnd f)))
 
 end XrsVerif.DistStr
